@@ -21,7 +21,7 @@ ASSUMPTIONS = ["fshift is linear in its signal argument (monitored on random com
                "integer shifts or Nyquist-free signals"]
 REQUIRED = {"contract:fshift_shape_dtype": 500, "contract:fshift_input_untouched": 500, "roll_checked": 200,
             "additivity_checked": 50, "analytic_checked": 50, "corrmax_checked": 50, "pertrace_checked": 50, "shift_vector_reuse_checked": 30, "corrmax_large_delays": 20, "corrmax_monophasic": 10, "nonfinite_inputs": 50,
-            "shift_waveform_checked": 3, "parabolic_checked": 50, "phase_estimates": 40, "phase_estimates_large_delay": 10}
+            "shift_waveform_checked": 3, "parabolic_checked": 50, "phase_estimates": 40, "phase_estimates_large_delay": 10, "phase_reference_calibrations": 40}
 CASE_TIMEOUT = 200.0
 
 _VIOL = []
@@ -493,6 +493,19 @@ def run_case(case):
                 res.check(abs(float(e2) - sh) <= 0.03 and np.max(np.abs(r2 - spike)) <= 0.01 * np.max(np.abs(spike)), "phase:calibration-reused",
                           f"{label}: with the calibration passed in: estimated {float(e2):.3f}")
                 res.check(np.array_equal(spike, sp0) and np.array_equal(spike2, sp20), "phase:inputs-touched", f"{label}: the inputs are modified")
+                # calibration measured ONCE on a reference wavelet of the same rate (another width, carrier, phase and length: another band) and
+                # handed in for this waveform (round 21): the phase slope per sample of delay is 2 pi / fs whatever the waveform
+                nr = int(rng.integers(90, 140))
+                sgr, wvr, phr = rng.uniform(6, 11), rng.uniform(1.5, 2.5), rng.uniform(0, 90)
+                tr = np.arange(nr) - (nr - 1) / 2
+                xr = np.exp(-0.5 * (tr / sgr) ** 2) * np.cos(wvr * tr / sgr)
+                ref = np.append(-np.fft.irfft(np.fft.rfft(xr) * np.exp(1j * phr / 180 * np.pi), nr), np.zeros(int(rng.integers(15, 40))))
+                a_ref, b_ref, _, _ = W.get_spike_slopeparams(ref, fs)
+                r3, e3 = W.wave_shift_phase(spike, spike2, fs, a_pos=a_ref, b_pos=b_ref)
+                res.measure("phase_reference_calibration_error_max", abs(float(e3) - sh))
+                res.check(abs(float(e3) - sh) <= 0.03 and np.max(np.abs(r3 - spike)) <= 0.01 * np.max(np.abs(spike)), "phase:calibration-from-reference",
+                          f"{label}: with the calibration of a reference wavelet (n={ref.size}, sigma={sgr:.2f}, carrier={wvr:.2f}): estimated {float(e3):.3f}",
+                          counter="phase_reference_calibrations")
                 nt += 1
             except Exception as ex:
                 res.exception("phase:exception", ex, label)
